@@ -713,39 +713,51 @@ class Gen:
             body = self.stmts(env2, depth - 1, r.randint(1, 2), ctx + ["arm"])
             arms.append({"pi": b.id(), "p": p, "g": g, "b": body})
 
+        def reps():
+            """how many arms a variant gets: often several (guards / `_` / binder sub-patterns make them differ)"""
+            return r.choice([1, 1, 2, 2, 3])
+
         if kind == "enum":
             subj = self.expr(env, ("named", "E1"), 0)
             if subj["t"] != "var":
-                x = None
                 vs = self.vars_of(env, ("named", "E1"))
                 subj = E(b, "var", x=r.choice(vs)) if vs else subj
             names = list(dict(ENUMS)["E1"])
             r.shuffle(names)
             wild = r.random() < 0.3
+            specs = []
             for v in (names[:r.randint(1, 2)] if wild else names):
-                arm(("variant", "E1", v))
+                specs.extend([("variant", "E1", v)] * reps())
+            if r.random() < 0.5:
+                r.shuffle(specs)
+            for p in specs:
+                arm(p)
             if wild:
                 arm(("wild",))
         elif kind == "opt":
             vs = self.vars_of(env, ("opt", INT))
             subj = E(b, "var", x=r.choice(vs)) if vs else E(b, "some", a=self.expr(env, INT, 1))
-            x = self.fresh()
-            order = [("some", x), ("none",)]
-            r.shuffle(order)
-            for p in order:
+            specs = [("some",)] * reps() + [("none",)] * r.choice([1, 1, 1, 2])
+            r.shuffle(specs)
+            for p in specs:
                 if p[0] == "some":
+                    x = self.fresh()
                     bind = r.random() < 0.7
                     arm(("some", x if bind else None), {x: [INT, False, False]} if bind else None)
                 else:
                     arm(("none",))
         else:
             subj = E(b, "call", f="fn2", xs=[(None, self.expr(env, INT, 1))])
-            x, y = self.fresh(), self.fresh()
-            arm(("ok", x), {x: [INT, False, False]})
-            if r.random() < 0.3:
+            wild = r.random() < 0.25
+            specs = [("ok",)] * reps() + ([] if wild else [("err",)] * reps())
+            if r.random() < 0.5:
+                r.shuffle(specs)
+            for p in specs:
+                x = self.fresh()
+                bind = r.random() < 0.7
+                arm((p[0], x if bind else None), {x: [INT if p[0] == "ok" else STR, False, False]} if bind else None)
+            if wild:
                 arm(("wild",))
-            else:
-                arm(("err", y), {y: [STR, False, False]})
         return S(b, "match", e=subj, ar=arms)
 
     def program(self):
@@ -885,6 +897,11 @@ def simple_expr(b, t, env_vis):
 BLOCK_CTX = ("fn", "then", "elif", "else", "while", "for", "arm", "dep")
 
 
+def pat_key(p):
+    """the variant a pattern stands for"""
+    return "variant:" + p[2] if p[0] == "variant" else p[0]
+
+
 def ctx_key(ctx):
     blocks = [c for c in ctx if c in BLOCK_CTX]
     role = [c for c in ctx if c not in BLOCK_CTX]
@@ -1022,14 +1039,20 @@ def make_edits(p, rng, per_kind, quota):
                 add("wrong-return", ctx, th)
             if s["t"] == "match":
                 pats = [a["p"] for a in s["ar"]]
-                if not any(p_[0] == "wild" for p_ in pats) and len(pats) >= 2:
-                    def th(s=s):
-                        q, b, idx = apply(None)
-                        n = idx[s["i"]]
-                        k = rng.randrange(len(n["ar"]))
-                        n["ar"].pop(k)
-                        return q, s["i"]
-                    add("match-missing-variant", ctx, th)
+                keys = [pat_key(p_) for p_ in pats]
+                if "wild" not in keys and len(set(keys)) >= 2:
+                    nvar = 3 if keys[0].startswith("variant") else 2
+                    for key in sorted(set(keys)):
+                        left = len([k for k in keys if k != key])
+                        # every arm of ONE variant removed; "repeated": still at least as many arms as variants
+                        name = "match-missing-variant" + ("-repeated-arms" if left >= nvar else "")
+
+                        def th(s=s, key=key):
+                            q, b, idx = apply(None)
+                            n = idx[s["i"]]
+                            n["ar"] = [a for a in n["ar"] if pat_key(a["p"]) != key]
+                            return q, s["i"]
+                        add(name, ctx, th)
         elif what == "slot":
             blk, pos = node
             vis, local = env
